@@ -222,8 +222,10 @@ func (p *Planner) expandSelectTopNodePlan(plan *selectTopNode, parentPlan *selec
 
 	p.expandAggregatePlans(plan)
 
-	// if we have an index that can take over ordering, we ignore the order node
-	if plan.order != nil && !isOrderedByIndex(plan.selectNode.source) {
+	// if we have an index that can take over ordering, we ignore the order node.
+	// The sub-selection of a join keeps its order node: the join reads the related documents of each
+	// parent through the foreign key (index), not through the index on the ordered field.
+	if plan.order != nil && (parentPlan != nil || !isOrderedByIndex(plan.selectNode.source)) {
 		plan.order.plan = plan.planNode
 		plan.planNode = plan.order
 	}
